@@ -564,6 +564,12 @@ public:
       pre = strengthen(head, pre);
     }
 
+    // If the analysis starts at the head of this cycle then the
+    // initial value reaches the head at every iteration, like the
+    // post of a predecessor outside the cycle.
+    const bool head_is_entry = entry_in_this_cycle && (head == m_entry);
+    const AbstractValue entry_pre = (head_is_entry ? pre : make_bottom());
+
     for (unsigned int iteration = 1;; ++iteration) {
       CRAB_VERIF_TICK("fixpo.increasing", iteration);
       // keep track of how many times the cycle is visited by the fixpoint
@@ -580,6 +586,9 @@ public:
       AbstractValue new_pre = std::move(make_bottom());
       for (basic_block_label_t prev : prev_nodes) {
         new_pre |= m_iterator->get_post(prev);
+      }
+      if (head_is_entry) {
+        new_pre |= entry_pre;
       }
       crab::CrabStats::stop("Fixpo.join_predecessors");
       crab::CrabStats::resume("Fixpo.check_fixpoint");
@@ -615,6 +624,9 @@ public:
       AbstractValue new_pre = std::move(make_bottom());
       for (basic_block_label_t prev : prev_nodes) {
         new_pre |= m_iterator->get_post(prev);
+      }
+      if (head_is_entry) {
+        new_pre |= entry_pre;
       }
       crab::CrabStats::stop("Fixpo.join_predecessors");
       crab::CrabStats::resume("Fixpo.check_fixpoint");
